@@ -145,7 +145,8 @@ def sites_of(path, rel, store_rx, notes):
             am = re.match(r"(\w+)\s*\.\s*clone\s*\(\s*\)$", arg)
             if not am:
                 notes.append(f"{rel}:{name}: sender.send({arg}) is not `<binding>.clone()`")
-                out.append({"file": rel, "fn": name, "binding": "?", "log": None, "store": None, "mut": True, "assigned": True})
+                out.append({"file": rel, "fn": name, "binding": "?", "log": None, "store": None, "mut": True, "assigned": True,
+                            "cont": rel.endswith("continuities.rs"), "order": ["SSend"], "checked": False, "guard_held": False, "gnote": "send of something that is not a binding"})
                 continue
             x = am.group(1)
             lo = sends[i - 1][1] if i > 0 else 0
@@ -159,11 +160,120 @@ def sites_of(path, rel, store_rx, notes):
             # a sink that sits in a deeper block than the send is conditional: not every published frame reaches it
             cond_log = lg is not None and depth_at(lg.start()) != depth_at(s0)
             cond_store = st is not None and depth_at(st.start()) != depth_at(s0)
+            # ---- order of the three statements, and what happens to the log append's result
+            pos = []
+            if lg is not None:
+                pos.append((lg.start(), "SLog"))
+            if st is not None:
+                pos.append((st.start(), "SStore"))
+            pos.append((s0, "SSend"))
+            order = [nm for _p, nm in sorted(pos)]
+            checked = False
+            if lg is not None:
+                # the statement the append sits in: from the previous `;` / `{` / `}` to the next `;`
+                a0 = max(body.rfind(";", 0, lg.start()), body.rfind("{", 0, lg.start()), body.rfind("}", 0, lg.start())) + 1
+                a1 = body.find(";", lg.end())
+                stmt = body[a0:a1 if a1 >= 0 else len(body)]
+                dropped = re.match(r"\s*let\s+_\s*=", stmt) is not None
+                # `<..>.append(&x) [.map_err(..)] ?` with nothing swallowing the error in between
+                tail = stmt[stmt.find("append"):]
+                checked = (not dropped) and re.search(r"\)\s*\?\s*$", tail) is not None \
+                    and re.search(r"\.\s*(ok|unwrap_or\w*|or_else|or)\s*\(", tail) is None
+            # ---- the seq mutex of the continuity store: still held at the send, counter advanced after it
+            guard_held = False
+            gnote = ""
+            if rel.endswith("continuities.rs"):
+                gm = re.search(r"\blet\s+mut\s+(\w+)\s*=\s*self\s*\.\s*next_seq\s*\.\s*lock\s*\(", body)
+                gp = re.search(r"\b(\w+)\s*:\s*&\s*mut\s+HashMap\s*<\s*String\s*,\s*u64\s*>", params)
+                g = gm.group(1) if gm else (gp.group(1) if gp else None)
+                if g is None:
+                    gnote = "no seq mutex guard in the function"
+                elif gm and gm.start() > (lg.start() if lg else s0):
+                    gnote = "the seq mutex is taken after the log append"
+                else:
+                    ge = re.escape(g)
+                    dropped_before = re.search(r"\bdrop\s*\(\s*" + ge + r"\s*\)", body[:s1]) is not None \
+                        or re.search(r"\b(?:std\s*::\s*)?mem\s*::\s*drop\s*\(\s*" + ge + r"\s*\)", body[:s1]) is not None
+                    advanced_after = re.search(r"\b" + ge + r"\s*\.\s*insert\s*\(", body[s1:hi]) is not None
+                    bumped_before = re.search(r"\b" + ge + r"\s*\.\s*insert\s*\([^;]*\+\s*1\s*\)", body[lo:s0]) is not None
+                    if dropped_before:
+                        gnote = f"drop({g}) before the send: the seq mutex is released before the frame has reached all sinks"
+                    elif not advanced_after:
+                        gnote = f"no {g}.insert(..) after the send"
+                    elif bumped_before:
+                        gnote = f"{g}.insert(.., seq + 1) before the send: the counter is advanced before the frame is written"
+                    else:
+                        guard_held = True
             out.append({"file": rel, "fn": name, "binding": x,
                         "log": (lg.group(1) + (" (conditional)" if cond_log else "")) if lg else None,
                         "store": (st.group(1) + (" (conditional)" if cond_store else "")) if st else None,
-                        "mut": decl_mut, "assigned": assigned})
+                        "mut": decl_mut, "assigned": assigned,
+                        "cont": rel.endswith("continuities.rs"), "order": order, "checked": checked,
+                        "guard_held": guard_held, "gnote": gnote})
     return out
+
+
+SHRINK = r"(truncate|drain|remove|swap_remove|pop|pop_front|pop_back|clear|retain|retain_mut|split_off|dedup\w*|resize\w*|set_len|shrink_to\w*|rotate_left|rotate_right)"
+
+
+def buffer_use_of(repo, notes):
+    """the per-session / per-task history buffers (the `events` field of SessionHandle / TaskHandle / TaskEmitter,
+       the `buffer` parameter of emit_event): plain Vec<Event>, never shortened, and the snapshot is written from
+       the locked buffer itself"""
+    res = {"vec": True, "never_shortened": True, "snapshot_source": False}
+    ok = True
+    names = r"(?:guard|events|buffer|history)"
+    seen_decl = 0
+    for rel in ("crates/ripd/src/session.rs", "crates/ripd/src/tasks/mod.rs", "crates/ripd/src/runner.rs", "crates/ripd/src/server.rs"):
+        p = os.path.join(repo, rel)
+        if not os.path.exists(p):
+            if rel.endswith(("session.rs", "tasks/mod.rs")):
+                notes.append(f"{rel}: file not found")
+                ok = False
+            continue
+        raw = open(p).read()
+        src = blank_literals(strip_tests(strip_comments(raw)))
+        # declarations of the buffers
+        for m in re.finditer(r"\b(events|buffer)\s*:\s*&?\s*(?:'\w+\s+)?Arc\s*<\s*Mutex\s*<\s*([\w:]+)\s*<\s*Event\s*>\s*>\s*>", src):
+            seen_decl += 1
+            if m.group(2) != "Vec":
+                res["vec"] = False
+                notes.append(f"{rel}: history buffer `{m.group(1)}` is a {m.group(2)}<Event>, not a Vec<Event>")
+        # anything that shortens them
+        for m in re.finditer(r"\b" + names + r"\s*\.\s*" + SHRINK + r"\s*\(", src):
+            res["never_shortened"] = False
+            line = src.count("\n", 0, m.start()) + 1
+            notes.append(f"{rel}: `{m.group(0).strip()}..)` shortens a history buffer (around line {line} of the stripped source)")
+        for m in re.finditer(r"\bmem\s*::\s*(take|replace|swap)\s*\(\s*&\s*mut\s*\*?\s*" + names + r"\b", src):
+            res["never_shortened"] = False
+            notes.append(f"{rel}: `{m.group(0).strip()}` empties / replaces a history buffer")
+        for m in re.finditer(r"\*\s*" + names + r"\s*=(?!=)", src):
+            res["never_shortened"] = False
+            notes.append(f"{rel}: `{m.group(0).strip()}` assigns a history buffer")
+        # a capacity / limit constant compared with the buffer's length
+        for m in re.finditer(r"\b" + names + r"\s*\.\s*len\s*\(\s*\)\s*(>=|>|==)\s*[A-Z][A-Z0-9_]+", src):
+            res["never_shortened"] = False
+            notes.append(f"{rel}: `{m.group(0).strip()}`: the length of a history buffer is compared with a constant (a cap)")
+        if rel.endswith("session.rs"):
+            # write_snapshot(<dir>, <id>, &<g>) with `let <g> = events.lock().await;` in the same function
+            for name, _params, b0, b1 in functions(src):
+                body = src[b0:b1]
+                w = re.search(r"\bwrite_snapshot\s*\(", body)
+                if not w:
+                    continue
+                arg, _end = paren_arg(body, w.end())
+                last = arg.split(",")[-1].strip()
+                gm = re.match(r"&\s*\*?\s*(\w+)$", last)
+                if gm and re.search(r"\blet\s+(?:mut\s+)?" + re.escape(gm.group(1)) + r"\s*=\s*events\s*\.\s*lock\s*\(\s*\)\s*\.\s*await\s*;", body[:w.start()]):
+                    res["snapshot_source"] = True
+                else:
+                    notes.append(f"session.rs fn {name}: write_snapshot is not handed the locked `events` buffer itself (argument `{last}`)")
+    if seen_decl == 0:
+        notes.append("no `events: Arc<Mutex<Vec<Event>>>` declaration found")
+        ok = False
+    if not res["snapshot_source"] and not any("write_snapshot" in n for n in notes):
+        notes.append("session.rs: no write_snapshot(..) call found")
+    return res, ok
 
 
 def coq_bool(b):
@@ -346,7 +456,11 @@ def main():
                     f"{', mut' if s['mut'] else ''}{', assigned' if s['assigned'] else ''} *)\n"
                     f"  {{| ss_has_log := {coq_bool(s['log'] is not None)}; ss_same_log := {coq_bool(s['log'] == x)}; "
                     f"ss_has_store := {coq_bool(s['store'] is not None)}; ss_same_store := {coq_bool(s['store'] == x)}; "
-                    f"ss_immutable := {coq_bool(not s['mut'] and not s['assigned'])} |}}")
+                    f"ss_immutable := {coq_bool(not s['mut'] and not s['assigned'])};\n"
+                    f"     (* order: {' ; '.join(s['order'])}; log append result {'checked (`?`)' if s['checked'] else 'dropped / not propagated'}"
+                    f"{'; ' + s['gnote'] if s['gnote'] else ''} *)\n"
+                    f"     ss_cont := {coq_bool(s['cont'])}; ss_order := {{| eo_ops := [{'; '.join(s['order'])}]; eo_log_checked := {coq_bool(s['checked'])} |}}; "
+                    f"ss_guard_held := {coq_bool(s['guard_held'])} |}}")
     lines.append(";\n".join(recs))
     lines.append("].")
     lines.append("")
@@ -355,6 +469,22 @@ def main():
     lines.append("Proof. vm_compute. reflexivity. Qed.")
     lines.append("")
     lines.append(f"(* {len(sites)} emit sites *)")
+    lines.append("")
+    lines.append("(* the obligation on the ORDER: every continuity append path appends to the log first and propagates its error (`?`),")
+    lines.append("   then writes the sidecar and publishes, all under the seq mutex; the session / task emitters feed every sink once *)")
+    lines.append("Lemma gen_sinks_order_ok : gen_ok_sinks && wf_sinks_order gen_sinks = true.")
+    lines.append("Proof. vm_compute. reflexivity. Qed.")
+    bnotes = []
+    bu, bok = buffer_use_of(a.repo, bnotes)
+    lines.append("")
+    lines.append("(* the buffers a snapshot is written from: plain Vec<Event>, never shortened, handed to write_snapshot as they are *)")
+    for n in bnotes:
+        lines.append(f"(* note: {n} *)")
+    lines.append(f"Definition gen_ok_buffer : bool := {coq_bool(bok)}.")
+    lines.append("Definition gen_buffer_use : buffer_use :=")
+    lines.append(f"  {{| bu_vec := {coq_bool(bu['vec'])}; bu_never_shortened := {coq_bool(bu['never_shortened'])}; bu_snapshot_source := {coq_bool(bu['snapshot_source'])} |}}.")
+    lines.append("Lemma gen_buffer_use_ok : gen_ok_buffer && wf_buffer_use gen_buffer_use = true.")
+    lines.append("Proof. vm_compute. reflexivity. Qed.")
     rnotes = []
     rc, rok = replay_check_of(a.repo, rnotes)
     lw, lok = log_write_of(a.repo, rnotes)
@@ -382,7 +512,7 @@ def main():
     lines.append("Definition gen_payload_guards : list bool := [" + "; ".join(coq_bool(g) for g in guards) + "].")
     lines.append("Lemma gen_payload_bound_ok : wf_payload_bound gen_payload_bound gen_payload_guards = true.")
     lines.append("Proof. vm_compute. reflexivity. Qed.")
-    notes = notes + rnotes
+    notes = notes + rnotes + bnotes + [f"{x['fn']}: {x['gnote']}" for x in sites if x.get("gnote")]
     os.makedirs(a.out, exist_ok=True)
     with open(os.path.join(a.out, "Sinks.v"), "w") as f:
         f.write("\n".join(lines) + "\n")
